@@ -173,6 +173,29 @@ def work_chunk(args):
                 y.value = 99
         if any(kind(x) == "ConstantExpression" and x.value == 99 for x in orig_nodes):
             fails.append({"clause": "clone/identical-independent", "detail": f"editing the copy changed the original on {t}"})
+        # re-use: the nodes were queried above (get_root / clone_from_root); now they are put under a new root the
+        # way rewrites and the constructors do, and every answer must be about the tree as it is NOW
+        if root.left is not None and root.right is not None and kind(root) != "EqualExpression":
+            try:
+                left, right = root.left, root.right
+                new_root = E.AddExpression(left, E.NegateExpression(right))
+                for x in nodes(new_root):
+                    if x.get_root() is not new_root:
+                        fails.append({"clause": "clone_from_root/locates-node", "detail": f"get_root() of a re-used node answers for the tree it used to be in on {t}"})
+                        break
+                    y = x.clone_from_root()
+                    r2 = y
+                    guard = 0
+                    while r2.parent is not None and guard < 50:
+                        r2 = r2.parent
+                        guard += 1
+                    pr3 = []
+                    iso(new_root, r2, {id(z) for z in nodes(new_root)}, pr3)
+                    if pr3 or at_path(r2, path_of(x)) is not y:
+                        fails.append({"clause": "clone_from_root/locates-node", "detail": f"after re-using the operands of the root under a new root, clone_from_root copies another tree / position ({(pr3 or ['position'])[0]}) on {t}"})
+                        break
+            except Exception as e:  # noqa: BLE001
+                fails.append({"clause": "clone_from_root/locates-node", "detail": f"re-use scenario raised {type(e).__name__}: {str(e)[:80]} on {t}"})
 
     return cases, fails
 
